@@ -24,6 +24,9 @@ def line_col(src, i):
     return (src.count('\n', 0, i), i - (src.rfind('\n', 0, i) + 1))
 
 
+LF_SEPS = ['', ' ', '  ', '\t', '\n', ' \n', '\n ', ' \n\t', '\t\n  ']
+
+
 def opener_of(el):
     from TexSoup.data import (TexCmd, TexNamedEnv, BraceGroup, BracketGroup,
                               TexEnv, TexText)
@@ -199,7 +202,10 @@ class C13(Prop):
                 continue
             rng = random.Random('%d/%d/c13s' % (seed, j))
             src, ast = docgen.gen_doc(rng, common.cfg_general(j, tier))
-            yield k, {'src': docgen.render_spaced(ast, rng), 'spaced': True}
+            # LF line structure (the statement's domain): blanks and at most
+            # one LF before a group - a CR LF pair would be two line ends and
+            # detach the argument
+            yield k, {'src': docgen.render_spaced(ast, rng, LF_SEPS), 'spaced': True}
 
     def nontrivial(self, p):
         if p.get('spaced'):
